@@ -68,6 +68,7 @@ OPERATOR_DUNDERS = ["__pos__", "__neg__", "__abs__", "__add__", "__radd__", "__s
 
 def run(chk):
     repo = chk.repo
+    cm.schema(chk, repo, "C08")
     d1_pass_through(chk, repo)
     d2_and(chk, repo)
     d3_mapped(chk, repo)
